@@ -212,6 +212,19 @@ def run_shard(rec, tier, seed, shard, nshards):
                                                 options={}))
             rec.check(ao[0] == "exc", "unknown-id/apply-accepts",
                       "apply accepted %s" % sel, case)
+            # the same list as the curve's remembered pipeline (public
+            # attribute), requested twice: rejected both times
+            cur = factory()
+            outs = []
+            for _ in range(2):
+                cur.preprocessing = list(sel)
+                outs.append(_outcome(lambda: cur.apply_preprocessing())[0])
+            rec.event("unknown identifiers requested twice through the "
+                      "curve's attribute")
+            rec.check(outs == ["exc", "exc"],
+                      "unknown-id/accepted-on-repeat",
+                      "idnt.preprocessing = %s; apply_preprocessing() twice "
+                      "-> %s" % (sel, outs), case)
             first_bad = sel.index(bad)
             if apply_ok(sel[:first_bad], req) and ao[0] == "exc":
                 rec.check(ao[1] == "KeyError", "unknown-id/apply-type",
